@@ -170,6 +170,31 @@ def replay_population(col, item):
                 col.nontrivial.add((json.dumps(case["F"]), s, e, json.dumps(xp), json.dumps(xn), layout))
         fs.exclude_files([])
         fs.exclude_times(None)
+        # independence of OTHER objects: a copy narrowed to a tag no file carries (and searched once) leaves the answers
+        # of the original as they were
+        if "{tag}" in tree.tmpl and not opts.get("zip"):
+            try:
+                cp = fs.copy()
+                cp.set_placeholders(tag="ZZ")
+                call_find(tree, cp, emb, MINT, MAXT, None)
+            except Exception as ex:
+                col.violation("copy-raises-" + type(ex).__name__, {"abstract": {"F": case["F"]}, "observed": repr(ex)[:200]})
+            else:
+                for q in case["qs"][::7]:
+                    s, e, xn, xp, white, black, exp = q
+                    if xn or xp:
+                        continue
+                    try:
+                        got = ids_of(call_find(tree, fs, emb, s, e, filters_of(white, black)))
+                    except Exception as ex:
+                        got = "raised " + type(ex).__name__
+                    col.count(1)
+                    if isinstance(got, str) or sorted(got) != sorted(exp):
+                        col.violation(fingerprint("find-changed-by-narrowing-a-copy", q),
+                                      {"abstract": {"F": case["F"], "query": {"s": s, "e": e, "white": white, "black": black}},
+                                       "concrete": {"embedding": emb_name, "layout": layout, "style": style},
+                                       "expected": sorted(exp), "observed": got})
+                        break
         if opts.get("contains", True):
             for h, exp in case["cont"]:
                 try:
